@@ -138,6 +138,24 @@ class P(Prop):
                     oargs = [rng.uniform(-3, 3) for _ in range(G.arity(other.split("::")[0]))]
                     out.append(K.kernel_case(other, oargs + [v], cls="interleave", libm=True))
                 out.append(K.kernel_case("Log<Poly%d>::evaluate" % k, cs + [v], cls="log/" + style, libm=True))
+        # short PolyN at arguments beyond 2^128 / below 2^-128 (any fixed-degree kernel would form x^8 there)
+        for _ in range(2 * per):
+            n = rng.randint(2, 9)
+            e = rng.choice([1, -1]) * rng.randint(128, max(130, 300 if n <= 3 else 960 // n))
+            x = rng.choice([1.0, -1.0]) * 2.0 ** e
+            cs = [rng.choice([3.0, -2.0, 1.0, 0.5]) * 2.0 ** (-e * i if abs(e * i) < 900 else 0) for i in range(n)]
+            out.append(dict(op="polyn_eval", cs=[C.bits(c) for c in cs], xs=[C.bits(x), C.bits(-x)], meta={"class": "polyn/huge_arg"}))
+        # polynomials with small integer roots, evaluated AT the roots (exact zero) and next to them (massive cancellation)
+        for _ in range(3 * per):
+            k = rng.randint(2, 8)
+            roots = [rng.randint(-9, 9) for _ in range(k)]
+            cs = [1]
+            for r0 in roots:
+                cs = [(cs[i - 1] if i > 0 else 0) - r0 * (cs[i] if i < len(cs) else 0) for i in range(len(cs) + 1)]
+            cs = [float(c) for c in cs]
+            r0 = float(rng.choice(roots))
+            x = rng.choice([r0, r0, r0 + 2.0 ** -21, r0 - 2.0 ** -30, r0 * (1 + 2.0 ** -40)])
+            out.append(K.kernel_case("Poly%d::evaluate" % k, cs + [x], cls="poly/roots"))
         maxlen = 12 if tier == "quick" else 64
         for _ in range(3 * per):
             n = rng.randint(0, maxlen)
